@@ -31,9 +31,11 @@ def _op():
                                  "kind": st.sampled_from(["sys", "sys", "sys", "coll", "colldef", "falsy"]),
                                  "np": st.sampled_from([None, None, None, None, "u8", "i8", "i64", "u64", "u16"]),
                                  "same": st.sampled_from([False, False, True]),
-                                 "win": st.sampled_from([None] * 6 + [[1, 1], [2, 1], [3, 2], [0, 2], [5, 1]])})
-    rem = st.fixed_dictionaries({"op": st.just("remove"), "id": st.integers(0, POOL - 1), "via": st.sampled_from(["remove_system", "clean_up"])})
-    step = st.fixed_dictionaries({"op": st.just("step"), "n": st.sampled_from([1, 1, 1, 2, 3])})
+                                 "win": st.sampled_from([None] * 6 + [[1, 1], [2, 1], [3, 2], [0, 2], [5, 1]]),
+                                 "alias": st.sampled_from([False] * 7 + [True])})
+    rem = st.fixed_dictionaries({"op": st.just("remove"), "id": st.integers(0, POOL - 1), "via": st.sampled_from(["remove_system", "clean_up"]),
+                                 "alias": st.sampled_from([False] * 7 + [True])})
+    step = st.fixed_dictionaries({"op": st.just("step"), "n": st.sampled_from([1, 1, 1, 2, 3]), "alias": st.sampled_from([False] * 7 + [True])})
     return wone_of(add, add, add, rem, step)
 
 
@@ -203,7 +205,11 @@ def run_case(case):
                 labels.add("rejected-add")
                 rejected[i] = obj
             else:
-                model.systems.add_system(obj)
+                if op.get("alias"):
+                    model.systems.addSystem(obj)        # the deprecated spelling is still an entry point
+                    labels.add("deprecated-aliases")
+                else:
+                    model.systems.add_system(obj)
                 S.seq += 1
                 live[i] = (obj, prio, S.seq, token)
                 if i in removed_once:
@@ -216,6 +222,9 @@ def run_case(case):
                 if op.get("via") == "clean_up":
                     live[i][0].clean_up()           # the convenience entry point: the system removes itself
                     labels.add("removed-via-clean_up")
+                elif op.get("alias"):
+                    model.systems.removeSystem(f"s{i}")
+                    labels.add("deprecated-aliases")
                 else:
                     model.systems.remove_system(f"s{i}")
                 graveyard[i] = live[i][0]
@@ -230,7 +239,12 @@ def run_case(case):
             del log[:]
             bystanders = {m_: len(s_.log) for m_, s_ in states.items() if s_ is not S}
             t_before = model.systems.timestep
-            model.execute(n)
+            if op.get("alias"):
+                for _ in range(n):
+                    model.systems.executeSystems()
+                labels.add("deprecated-aliases")
+            else:
+                model.execute(n)
             for m_, n_ in bystanders.items():
                 if len(states[m_].log) != n_:
                     raise Violation("other-model-ran", f"after {k} ops: stepping one model executed systems of model {m_}: {states[m_].log[n_:]}")
